@@ -571,30 +571,32 @@ theorem deliv_publish {s : State} (c : Nat) (x : Conn) (i ch p : Bytes)
 
 /-- registry + delivery invariants together, in every reachable state -/
 theorem regDelivPres (cfg : Cfg) : Pres cfg (fun s => Reg s ∧ Deliv s) where
-  logAct := fun _ c a ha h => ⟨(regPres cfg).logAct _ c a ha h.1, deliv_logAct c a ha h.2⟩
-  closeT := fun _ c h => ⟨reg_closeT c h.1, deliv_closeT c h.2⟩
-  crashClose := fun _ c h => ⟨reg_crashClose c h.1, deliv_crashClose c h.2⟩
-  doSubscribe := fun _ c ch ok x hx hr a b h =>
-    ⟨reg_doSubscribe c ch ok x hx hr h.1, deliv_doSubscribe c ch ok x hx b h.2⟩
-  doUnsubscribe := fun _ c ch _ _ _ h => ⟨reg_doUnsubscribe c ch h.1, deliv_doUnsubscribe c ch h.2⟩
-  setAuth := fun _ c i d row _ _ _ h => ⟨reg_setAuth c i d row h.1, deliv_setAuth c i d row h.2⟩
-  pauseReading := fun _ c h => ⟨reg_pauseReading c h.1, deliv_pauseReading c h.2⟩
-  resumeReading := fun _ c h => ⟨reg_resumeReading c h.1, deliv_resumeReading c h.2⟩
-  addPending := fun _ c _ _ h => ⟨(regPres cfg).addPending _ c _ _ h.1,
-    deliv_local c _ (fun _ => ⟨rfl, rfl, rfl, rfl, rfl⟩) h.2⟩
-  dropPending := fun _ c _ h => ⟨(regPres cfg).dropPending _ c _ h.1,
-    deliv_local c _ (fun _ => ⟨rfl, rfl, rfl, rfl, rfl⟩) h.2⟩
-  setBuf := fun _ c _ h => ⟨(regPres cfg).setBuf _ c _ h.1,
-    deliv_local c _ (fun _ => ⟨rfl, rfl, rfl, rfl, rfl⟩) h.2⟩
-  publish := fun _ c x i ch p _ hak hch _ h => ⟨reg_publish c x i ch p h.1, deliv_publish c x i ch p hak hch h.1 h.2⟩
-  addConn := fun _ c n hc h => ⟨reg_addConn c n hc h.1, deliv_addConn c n hc h.2⟩
-  peerClose := fun _ c h => ⟨reg_peerClose c h.1, deliv_peerClose c h.2⟩
-  lostConn := fun _ c x hx _ h => ⟨reg_lostConn c x hx h.1, deliv_lostConn c h.2⟩
-  armDeadline := fun _ c h => ⟨(regPres cfg).armDeadline _ c h.1,
-    deliv_logAct c _ (by intro f hf; cases hf) (deliv_local c _ (fun _ => ⟨rfl, rfl, rfl, rfl, rfl⟩) h.2)⟩
-  clearDeadline := fun _ c a ha h => ⟨(regPres cfg).clearDeadline _ c a ha h.1,
-    deliv_logAct c a (by intro f hf; rcases ha with rfl | rfl <;> cases hf)
-      (deliv_local c _ (fun _ => ⟨rfl, rfl, rfl, rfl, rfl⟩) h.2)⟩
+  prim := fun c => {
+    logAct := fun _ a ha h => ⟨reg_logAct c a h.1, deliv_logAct c a ha.nonPub h.2⟩
+    closeT := fun _ h => ⟨reg_closeT c h.1, deliv_closeT c h.2⟩
+    crashClose := fun _ h => ⟨reg_crashClose c h.1, deliv_crashClose c h.2⟩
+    doSubscribe := fun _ ch ok x hx hr _ _ b h =>
+      ⟨reg_doSubscribe c ch ok x hx hr h.1, deliv_doSubscribe c ch ok x hx b h.2⟩
+    doUnsubscribe := fun _ ch _ _ _ _ h => ⟨reg_doUnsubscribe c ch h.1, deliv_doUnsubscribe c ch h.2⟩
+    setAuth := fun _ i d row _ _ _ h => ⟨reg_setAuth c i d row h.1, deliv_setAuth c i d row h.2⟩
+    pauseReading := fun _ h => ⟨reg_pauseReading c h.1, deliv_pauseReading c h.2⟩
+    resumeReading := fun _ h => ⟨reg_resumeReading c h.1, deliv_resumeReading c h.2⟩
+    addPending := fun _ _ _ h => ⟨((regPres cfg).prim c).addPending _ _ _ h.1,
+      deliv_local c _ (fun _ => ⟨rfl, rfl, rfl, rfl, rfl⟩) h.2⟩
+    dropPending := fun _ _ h => ⟨((regPres cfg).prim c).dropPending _ _ h.1,
+      deliv_local c _ (fun _ => ⟨rfl, rfl, rfl, rfl, rfl⟩) h.2⟩
+    setBuf := fun _ _ h => ⟨((regPres cfg).prim c).setBuf _ _ h.1,
+      deliv_local c _ (fun _ => ⟨rfl, rfl, rfl, rfl, rfl⟩) h.2⟩
+    publish := fun _ x i ch p _ hak hch _ h =>
+      ⟨reg_publish c x i ch p h.1, deliv_publish c x i ch p hak hch h.1 h.2⟩
+    addConn := fun _ n hc h => ⟨reg_addConn c n hc h.1, deliv_addConn c n hc h.2⟩
+    peerClose := fun _ h => ⟨reg_peerClose c h.1, deliv_peerClose c h.2⟩
+    lostConn := fun _ x hx _ h => ⟨reg_lostConn c x hx h.1, deliv_lostConn c h.2⟩
+    armDeadline := fun _ h => ⟨((regPres cfg).prim c).armDeadline _ h.1,
+      deliv_logAct c _ (by intro f hf; cases hf) (deliv_local c _ (fun _ => ⟨rfl, rfl, rfl, rfl, rfl⟩) h.2)⟩
+    clearDeadline := fun _ a ha h => ⟨((regPres cfg).prim c).clearDeadline _ a ha h.1,
+      deliv_logAct c a (by intro f hf; rcases ha with rfl | rfl <;> cases hf)
+        (deliv_local c _ (fun _ => ⟨rfl, rfl, rfl, rfl, rfl⟩) h.2)⟩ }
   tick := fun s ms h => ⟨(regPres cfg).tick s ms h.1, deliv_congr (s := s) rfl rfl h.2⟩
 
 theorem deliv_run (cfg : Cfg) (es : List Event) : Deliv (run cfg es) :=
